@@ -191,16 +191,21 @@ def check_symmetry(desc):
 CHECKS = {"smallk": check_smallk, "modified": check_modified, "symmetry": check_symmetry}
 
 
-def shards(tier):
-    n = 1 if tier == "quick" else 8
+def shards(tier, seed=1):
+    from vlib.pbt import rot
+
+    q = tier == "quick"
+    n = 1 if q else 8
     out = []
-    for op in ("V", "K", "Kp"):
-        for shapes in ((["DP0"], ["P1", "DP1"]), (["P1", "DP1"], ["DP0"])):
-            out.append({"check": "smallk", "op": op, "tk": shapes[0], "dk": shapes[1], "examples": 10 * n, "budget_s": 120 * n})
-    for op in ("V", "K", "Kp", "W", "PV", "PK"):
-        out.append({"check": "modified", "op": op, "examples": 6 * n, "budget_s": 150 * n})
-    for fam, op in (("helmholtz", "V"), ("helmholtz", "W"), ("helmholtz", "KKp"), ("laplace", "KKp"), ("modified", "W")):
-        out.append({"check": "symmetry", "fam": fam, "op": op, "examples": 4 * n, "budget_s": 150 * n})
+    sk = [(op, shapes) for op in ("V", "K", "Kp") for shapes in ((["DP0"], ["P1", "DP1"]), (["P1", "DP1"], ["DP0"]))]
+    for op, shapes in (rot(sk, seed, 2) if q else sk):
+        out.append({"check": "smallk", "op": op, "tk": shapes[0], "dk": shapes[1], "examples": 12 * n, "budget_s": 240 * n})
+    mo = ["V", "K", "Kp", "W", "PV", "PK"]
+    for op in (rot(mo, seed, 2) if q else mo):
+        out.append({"check": "modified", "op": op, "examples": 8 * n, "budget_s": 240 * n})
+    sy = [("helmholtz", "V"), ("helmholtz", "W"), ("helmholtz", "KKp"), ("laplace", "KKp"), ("modified", "W")]
+    for fam, op in (rot(sy, seed, 1) if q else sy):
+        out.append({"check": "symmetry", "fam": fam, "op": op, "examples": 4 * n, "budget_s": 240 * n})
     return out
 
 
@@ -241,4 +246,7 @@ def strategy(spec):
 
 
 def required_labels(tier):
-    return ["smallk", "modified", "symmetry", "complex_k", "imag_k", "real_k", "boundary", "potential", "V", "K", "Kp", "W"]
+    return ["smallk", "modified", "symmetry"] if tier == "quick" else [
+        "smallk", "modified", "symmetry", "complex_k", "imag_k", "real_k", "boundary", "potential", "V", "K", "Kp", "W"]
+
+
